@@ -116,7 +116,9 @@ def _open_loop_job(k):
     s = dict(name="wing", nx=2 + k % 2, ny=3 + k % 3, sym=k % 2 == 0, side="L" if k % 2 == 0 else "F", shape=["swept", "all", "tapered", "dihedral"][k % 4], visc=True, fem="tube" if k % 3 else "wingbox", relief=k % 2 == 1, span=20.0, chord=3.0, jitter=0.01)
     if not s["sym"]:
         s["ny"] = 2 * s["ny"] - 1
-    m = B.ASModel([s], rng=rng, flow=dict(alpha=float(rng.uniform(3, 7)), v=float(rng.uniform(150, 240)), load_factor=float(rng.choice([1.0, 2.5]))))
+    comp = k % 3 == 2  # compressible coupled group (Prandtl-Glauert pipeline inside the loop)
+    beta = 0.0 if s["sym"] else float(rng.uniform(2, 6)) * (1 if k % 4 < 2 else -1)  # sideslip on the full-span models
+    m = B.ASModel([s], rng=rng, compressible=comp, flow=dict(alpha=float(rng.uniform(3, 7)), beta=beta, Mach_number=0.6 if comp else 0.3, v=float(rng.uniform(150, 240)), load_factor=float(rng.choice([1.0, 2.5]))))
     m.run()
     p = m.prob
     c = "AS_point_0.coupled."
@@ -132,12 +134,17 @@ def _open_loop_job(k):
     ivc.add_output("mesh", mesh, units="m")
     ivc.add_output("nodes", nodes, units="m")
     ivc.add_output("disp", disp, units="m")
-    for n, u in (("v", "m/s"), ("alpha", "deg"), ("beta", "deg"), ("rho", "kg/m**3")):
+    for n, u in (("v", "m/s"), ("alpha", "deg"), ("beta", "deg"), ("rho", "kg/m**3"), ("Mach_number", None)):
         ivc.add_output(n, m.flow[n], units=u)
     prob.model.add_subsystem("ivc", ivc, promotes=["*"])
     prob.model.add_subsystem("dt", DisplacementTransferGroup(surface=d), promotes_inputs=["mesh", "nodes", "disp"], promotes_outputs=["def_mesh"])
     prob.model.add_subsystem("geom", VLMGeometry(surface=d), promotes_inputs=["def_mesh"], promotes_outputs=["normals"])
-    prob.model.add_subsystem("states", VLMStates(surfaces=[d]), promotes_inputs=["v", "alpha", "beta", "rho"])
+    if comp:
+        from openaerostruct.aerodynamics.compressible_states import CompressibleVLMStates
+
+        prob.model.add_subsystem("states", CompressibleVLMStates(surfaces=[d]), promotes_inputs=["v", "alpha", "beta", "rho", "Mach_number"])
+    else:
+        prob.model.add_subsystem("states", VLMStates(surfaces=[d]), promotes_inputs=["v", "alpha", "beta", "rho"])
     prob.model.connect("def_mesh", "states.wing_def_mesh")
     prob.model.connect("normals", "states.wing_normals")
     prob.model.add_subsystem("lt", LoadTransfer(surface=d), promotes_inputs=["def_mesh"])
@@ -164,7 +171,7 @@ def _open_loop_job(k):
     d2 = np.array(p2.get_val("disp"))
     if float(np.max(np.abs(d2[:, :3] - disp[:, :3]))) > 1e-8 * float(np.max(np.abs(disp[:, :3]))) or float(np.max(np.abs(d2[:, 3:] - disp[:, 3:]))) > 1e-8 * float(np.max(np.abs(disp[:, 3:]))):
         bad.append(("openloop:struct_leg", {}))
-    return {"k": k, "bad": bad, "case": {kk: s[kk] for kk in ("nx", "ny", "sym", "shape", "fem", "relief")}}
+    return {"k": k, "bad": bad, "case": dict({kk: s[kk] for kk in ("nx", "ny", "sym", "shape", "fem", "relief")}, compressible=comp, beta=beta)}
 
 
 def _key_outputs(m, points=("AS_point_0",)):
@@ -374,6 +381,19 @@ def run(tier, only=None):
         R.case(["rigid", r["k"]], True, sample={"rigid_limit_errors_per_decade_of_E": r["errs"]} if r["k"] == 0 else None, section="rigid")
         for sig, p in r["bad"]:
             R.violation(sig, {"k": r["k"], "detail": p})
+    # flow-condition wiring of the aerostructural point for every option combination (OASWiring on the real connection table)
+    from .. import wiring
+
+    for comp in (False, True):
+        for rot in (False, True):
+            for npnt in (1, 2):
+                surfs = [dict(name="wing", nx=2, ny=3, sym=True, side="L", shape="swept", visc=True, fem="tube", relief=True, span=20.0, chord=3.0)]
+                if npnt == 1:
+                    surfs.append(dict(name="tail", nx=2, ny=3, sym=True, side="L", shape="flat", visc=True, fem="wingbox" if comp else "tube", fuel=comp, span=8.0, chord=1.5, off=(12.0, 0.0, 1.0)))
+                m = B.ASModel(surfs, compressible=comp, rotational=rot, npoints=npnt, rng=np.random.default_rng(1))
+                m.prob.final_setup()
+                for pn in m.points:
+                    wiring.check(R, m.prob, pn, "aerostruct:compressible=%s:rotational=%s:points=%d:%s" % (comp, rot, npnt, pn))
     R.assume("coupled solver atol 1e-8 N, rtol 1e-14; solver combinations compared at 1e-8 (outputs) / 1e-6 (totals)", "a combination whose iterative solver reports non-convergence is recorded as inconclusive, never as a violation", "trace validation covers the incompressible coupled group (VLMStates); the compressible one is covered by C09/C03")
     return R.finish({"exhaustive": True, "inconclusive_solver_combinations": inconcl})
 
